@@ -54,6 +54,7 @@ int main(int argc, char** argv) {
 	registerExtra(cases);
 	registerMoo(cases);
 	registerStream(cases);
+	registerMore(cases);
 
 	if (argc != 2 && argc != 3) {
 		std::cerr << "usage: c18_roundtrip --list | <casefile>\n";
